@@ -46,6 +46,9 @@ type cliScen struct {
 	tok    int
 	stepNo int
 	total  int
+	// noInject: no transport faults around single Sends (the exhaustive reply scripts of the thorough
+	// tier enumerate the permutations of exactly exN replies, so every request must reach the peer)
+	noInject bool
 }
 
 func (s *cliScen) newTok() string { s.tok++; return strconv.Itoa(s.tok) }
@@ -61,7 +64,7 @@ func (s *cliScen) pickParked(n int) int {
 // channel's Send a transport fault may be injected (fault at that operation index).
 func (s *cliScen) release(i int) {
 	site := s.r.sc.siteOf(i)
-	inject := s.f.faultOf16 > 0 && (site == "cli.send" || site == "cli.cbreply") && !s.r.sendFail && s.g.chance(s.f.faultOf16, 16)
+	inject := s.f.faultOf16 > 0 && !s.noInject && (site == "cli.send" || site == "cli.cbreply") && !s.r.sendFail && s.g.chance(s.f.faultOf16, 16)
 	if inject {
 		s.r.sendFault(true)
 	}
@@ -368,6 +371,7 @@ func (s *cliScen) scriptScenario(idx int) {
 		exN, exPerm, exMask, exhaustive = exhaustiveCase(idx)
 	}
 	if exhaustive {
+		s.noInject = true
 		for i := 0; i < exN; i++ {
 			r.startOp("call", []cspec{s.spec(false)}, false)
 			s.sched()
